@@ -9,9 +9,10 @@ RULE = ("A pipeline case (reference, well separated biallelic variants, true hap
         "a full-variety VCF: extra samples without reads, arbitrary INFO / FORMAT fields and FILTERs, ID and QUAL values, "
         "missing and partially missing GTs, unsorted unphased GTs ('1/0'), multi-ALT, symbolic and ALT-less records, "
         "duplicate positions, pre-existing phasing (PS, HP, PQ) on target and non-target samples; options --sample, "
-        "--chromosome, --tag, --only-snvs. Oracle: both files are parsed with htslib and compared record by record: site "
+        "--chromosome, --tag, --only-snvs, --distrust-genotypes (a fifth of the cases, sometimes with --include-homozygous). Oracle: both files are parsed with htslib and compared record by record: site "
         "fields, samples and every FORMAT value other than GT order/phase flag, PS and HP identical; GT allele multiset "
-        "identical; non-selected samples and chromosomes untouched; newly phased calls are heterozygous, biallelic, "
+        "identical (with --distrust-genotypes: a genotype may be re-called only on a record with one non-symbolic ALT and only into a "
+        "diploid genotype over REF/ALT); non-selected samples and chromosomes untouched; newly phased calls are heterozygous, biallelic, "
         "non-symbolic, SNVs under --only-snvs and the first record at their position; header definitions preserved. "
         "Non-trivial = at least one record edited and at least one record of a kind the writer must skip in the same file. "
         "Distinct = distinct generated case.")
@@ -68,7 +69,8 @@ def gen(draw):
     chroms = [c["name"] for c in case["contigs"]]
     case["opts"] = {"tag": draw(st.sampled_from(["PS", "PS", "HP"])), "only_snvs": draw(st.integers(0, 4)) == 0,
                     "samples": draw(st.sampled_from([None, None] + [[s] for s in bam_samples])),
-                    "chromosomes": draw(st.sampled_from([None, None] + [[c] for c in chroms]))}
+                    "chromosomes": draw(st.sampled_from([None, None] + [[c] for c in chroms])),
+                    "distrust": draw(st.integers(0, 4)) == 0, "include_homozygous": draw(st.integers(0, 5)) == 0}
     return case
 
 
@@ -172,6 +174,10 @@ class PassthroughPart:
             kw["samples"] = list(o["samples"])
         if o["chromosomes"]:
             kw["chromosomes"] = list(o["chromosomes"])
+        if o.get("distrust"):
+            kw["distrust_genotypes"] = True
+            if o.get("include_homozygous"):
+                kw["include_homozygous"] = True
         out, trace = P.run_phase(d, inp, [bam], reference=ref, tag=o["tag"], only_snvs=o["only_snvs"], trace=False, **kw)
         ha, a = vm.read_vcf(inp)
         hb, b = vm.read_vcf(out)
@@ -183,9 +189,22 @@ class PassthroughPart:
         def untouched(sample, rec):
             return sample not in targets or rec["chrom"] not in chroms
 
-        for kind, msg in vm.diff_records(a, b, ignore_format=("PS", "HP"), compare_gt="multiset",
+        for kind, msg in vm.diff_records(a, b, ignore_format=("PS", "HP"), compare_gt=None if o.get("distrust") else "multiset",
                                          gt_exact_for=untouched, fmt_exact_for=untouched):
             ctx.violation("passthrough:" + kind, msg)
+        if o.get("distrust") and len(a) == len(b):
+            # distrusted genotypes may be re-called, but only on records the phasing reads (one non-symbolic ALT) and only
+            # into a diploid genotype over {REF, ALT}
+            for i, (x, y) in enumerate(zip(a, b)):
+                for s in x["samples"]:
+                    gx, gy = x["samples"][s]["GT"], y["samples"][s]["GT"]
+                    if vm.allele_multiset(gx) != vm.allele_multiset(gy):
+                        ctx.label("genotype-re-called")
+                        where = "record %d (%s:%d, kind %s) sample %s" % (i, x["chrom"], x["pos"], case["kinds"][i], s)
+                        if len(x["alts"]) != 1 or x["alts"][0].startswith("<"):
+                            ctx.violation("passthrough:distrust:unsupported-record-recalled", "%s: GT %r -> %r on a record with ALT %r" % (where, gx, gy, x["alts"]))
+                        elif gy is None or len(gy) != 2 or any(g not in (0, 1) for g in gy):
+                            ctx.violation("passthrough:distrust:bad-genotype", "%s: GT %r -> %r" % (where, gx, gy))
         edited = 0
         if len(a) == len(b):
             seen_pos = set()
@@ -228,6 +247,8 @@ class PassthroughPart:
         has_skip = any(k in skipped_kinds for k in case["kinds"]) or len(targets) < len(case["model"]["samples"]) or len(chroms) < len(case["contigs"])
         ctx.nontrivial(edited > 0 and has_skip)
         ctx.label("tag-" + o["tag"])
+        if o.get("distrust"):
+            ctx.label("distrust-genotypes")
         if edited:
             ctx.label("edited")
         for k in sorted(set(case["kinds"])):
